@@ -180,7 +180,7 @@ for n, lens in ((2, (3, 4, 5)), (3, (4, 5))):
                 shape = "%d,%d,%d,%d" % (h, n, st, k)
                 tag = "h%d-n%d-s%d-k%d" % (h, n, st, k)
                 bound = "ASCII prefilter window of %d chars%s, needle %d, %s, 256-byte slab" % (L, " preceded by one char" if st else "", n, CFGNAME[k])
-                small = (L <= 4 and n == 2) or (L == 4 and n == 3 and st == 0)
+                small = (L <= 4 and n == 2) or (L == 4 and n == 3 and st == 0) or (n == 2 and L == 5 and st == 1 and k == 1)
                 tier = "quick" if small else "thorough"
                 UC("c02-opt-ws-" + tag, "optimal", "opt_witness_and_score::<%s>()" % shape, {"C01": tier, "C02": tier, "C03": tier, "C10": tier}, "bounded", OPT_FNS,
                    "fuzzy_match_optimal (ASCII): Some under the prefilter's postcondition; W; score == fzf scheme on the indices", unwind=max(h + 3, 7), bound=bound, cost=8, timeout=1500, core=(tag in ("h3-n2-s0-k0", "h4-n2-s1-k1")))
